@@ -22,7 +22,9 @@ TRUSTED = [
 ASSUMPTIONS = [
     "names, paths and messages are C strings (no NUL byte inside)",
     "group names are not empty (an empty group name gets a suite start but no finish: recorded as an observation, outside the quantifier)",
-    "text printed by tests (UT_PRINT) is not part of the property; the stream theorems treat it as opaque text that does not contain '##teamcity['",
+    "text printed by tests (UT_PRINT) is outside the property's quantifier; it is written raw BETWEEN messages (never inside one); the "
+    "whole-stream decoding theorems assume it contains no '#' (a test can print a complete service message of its own: observation "
+    "printed_text_can_inject_a_message); the -vv progress trace and the summary are modelled and proved free of '#'",
     "failures are reported by the running test about itself (TestFailure built from the current shell), as all check macros do",
 ]
 RULE = ("scripted registries: 1-5 group runs, pass / fail through every TestFailure constructor (file+line+message, message only, file+line only, FailFailure; from the body "
@@ -101,6 +103,14 @@ def observe(r, rep):
         rep.count("observation.empty_group_name_case")
         if s.count(b"##teamcity[testSuiteStarted") != s.count(b"##teamcity[testSuiteFinished"):
             rep.count("observation.empty_group_name_suite_not_finished")
+    if any(l.startswith("verbose 2") for l in r.ops):
+        rep.count("branch.very_verbose")
+        if b"before runAllPreTestAction" in s:
+            rep.count("branch.very_verbose_trace_in_stream")
+    if any(l.startswith("verbose 1") for l in r.ops):
+        rep.count("branch.verbose")
+    if any(a[0] == "print" and (b"#" in a[1] or b"#" in a[3]) for t in reg["tests"] for a in t["acts"]):
+        rep.count("observation.test_prints_hash")
     if reg["filter"] is not None:
         rep.count("branch.name_filter")
         if any(not G.should_run(reg, t) for t in reg["tests"]):
@@ -141,6 +151,8 @@ def py_judge(ops, stream):
     reg = G.read_registry(ops)
     if any(t["group"] == b"" for t in reg["tests"]):
         return None
+    if any(a[0] == "print" and (b"#" in a[1] or b"#" in a[3]) for t in reg["tests"] for a in t["acts"]):
+        return None      # a test printing '#' may print a service message of its own: outside the quantifier
     want = []
     for g, ts in G.group_runs(reg["tests"]):
         want.append(("testSuiteStarted", g))
@@ -215,8 +227,15 @@ LEVEL_TEXT = ("Machine-checked Lean 4 theorems over an executable model of TeamC
               "in which every value went through the escape; that message list is balanced (suite and test start/finish pair up, ignored "
               "and failed messages name the open test) whenever no group name is empty. The escape table is regenerated from "
               "printEscaped on every run and the theorems are re-checked against it; the whole captured stream of the real code is "
-              "compared byte for byte with the model on generated registries and judged by two independent decoders (Lean, Python).")
+              "compared byte for byte with the model on generated registries and judged by two independent decoders (Lean, Python). "
+              "Proved at stream level as well: the specification's own stream parser applied to the rendering of ANY message list "
+              "returns that list, and applied to the writer model's byte stream of any event list (default and -vv mode; text printed by "
+              "tests free of '#') it returns the run's message list with every value equal to the original. The -vv progress trace and the "
+              "summary are modelled, compared with the real output and proved unable to break balance or escaping.")
 LEVEL_NOTE = ("Trusted: Lean kernel; the hand-written writer/runner model (validated against the code by the correspondence of this run); "
               "the extractor of the escape table; the TeamCity rules as written in Spec/TeamCity.lean. Outside the quantifier and only "
-              "observed: empty group names (suite start without finish), text printed by tests. Not modelled: verbose/colour modes.")
+              "observed (each stated as a theorem): empty group names (suite start without finish); text printed by tests is written raw "
+              "between messages - it cannot corrupt a message but can contain a complete service message of its own "
+              "(printed_text_can_inject_a_message). Not modelled: colour mode (escape codes in the summary only), the "
+              "'Test run i of n' text of repeated runs.")
 TECHNIQUE = "Lean 4 induction over the registry loop and per-byte escape lemmas over a regenerated table + differential correspondence harness + two independent decoders"
